@@ -29,6 +29,7 @@ type rangeRes struct {
 	Fails       []Failure
 	FailCounts  map[string]int64
 	Counters    map[string]int64
+	SysMB       int64 // memory obtained from the OS by the worker (recycling threshold)
 }
 
 func cpuNow() int64 {
@@ -109,7 +110,10 @@ func watchdog() {
 // WorkerMain is the entry point of a worker process.
 func WorkerMain(id, tier string, seed int64) {
 	debug.SetMaxStack(64 << 20)
-	debug.SetGCPercent(200)
+	debug.SetGCPercent(100)
+	// hard cap on the address space: a runaway allocation kills this worker, not the machine
+	lim := syscall.Rlimit{Cur: 6 << 30, Max: 6 << 30}
+	syscall.Setrlimit(syscall.RLIMIT_AS, &lim)
 	ck := Get(id)
 	if ck == nil {
 		fmt.Fprintln(os.Stderr, "unknown check", id)
@@ -151,6 +155,9 @@ func WorkerMain(id, tier string, seed int64) {
 		for h := range c.Outcomes {
 			res.Outcomes = append(res.Outcomes, h)
 		}
+		var ms runtime.MemStats
+		runtime.ReadMemStats(&ms)
+		res.SysMB = int64(ms.Sys >> 20)
 		b, _ := json.Marshal(res)
 		workerOut.WriteString("RES ")
 		workerOut.Write(b)
